@@ -201,6 +201,8 @@ func (u *universe) ty(e *sexp) types.Type {
 			return types.NewSignatureType(nil, nil, nil, nil, nil, false)
 		case "iface":
 			return types.NewInterfaceType(nil, nil).Complete()
+		case "error":
+			return types.Universe.Lookup("error").Type()
 		}
 		k, ok := basics[e.atom]
 		if !ok {
@@ -213,8 +215,15 @@ func (u *universe) ty(e *sexp) types.Type {
 	}
 	a := e.list[1:]
 	switch e.list[0].atom {
-	case "nm":
-		if len(a) != 3 || a[0].isL || a[1].isL {
+	case "if":
+		// interface{ M1(); M2() … }
+		var ms []*types.Func
+		for _, m := range atoms(a) {
+			ms = append(ms, types.NewFunc(token.NoPos, u.pkg(0), unesc(m), methodSig(unesc(m), nil)))
+		}
+		return types.NewInterfaceType(ms, nil).Complete()
+	case "nm", "nmm":
+		if len(a) < 3 || (e.list[0].atom == "nm" && len(a) != 3) || a[0].isL || a[1].isL {
 			bad("bad nm")
 		}
 		pi, err := strconv.Atoi(a[0].atom)
@@ -232,6 +241,11 @@ func (u *universe) ty(e *sexp) types.Type {
 			return n
 		}
 		n := types.NewNamed(types.NewTypeName(token.NoPos, u.pkg(pi), name, nil), under.Underlying(), nil)
+		for _, m := range atoms(a[3:]) {
+			// value receiver: T and *T have the method
+			recv := types.NewVar(token.NoPos, u.pkg(pi), "x", n)
+			n.AddMethod(types.NewFunc(token.NoPos, u.pkg(pi), unesc(m), methodSig(unesc(m), recv)))
+		}
 		u.named[key] = n
 		u.under[key] = w
 		return n
@@ -275,6 +289,15 @@ func (u *universe) ty(e *sexp) types.Type {
 	return nil
 }
 
+// methodSig: M() for every method name, Error() string for Error (so that the type implements error).
+func methodSig(name string, recv *types.Var) *types.Signature {
+	var res *types.Tuple
+	if name == "Error" || name == "String" {
+		res = types.NewTuple(types.NewVar(token.NoPos, nil, "", types.Typ[types.String]))
+	}
+	return types.NewSignatureType(recv, nil, nil, nil, res, false)
+}
+
 // show prints a type in the wire form with `,` for spaces. For a named type the underlying type
 // printed is the one it was declared with on the wire.
 func (u *universe) show(t types.Type) string {
@@ -285,6 +308,9 @@ func (u *universe) show(t types.Type) string {
 		}
 		return "?" + t.Name()
 	case *types.Named:
+		if t.Obj().Pkg() == nil && t.Obj().Name() == "error" {
+			return "error"
+		}
 		key := fmt.Sprintf("%d/%s", u.pkgIdx[t.Obj().Pkg()], t.Obj().Name())
 		return fmt.Sprintf("(nm,%d,%s,%s)", u.pkgIdx[t.Obj().Pkg()], esc(t.Obj().Name()), u.under[key])
 	case *types.Pointer:
@@ -306,7 +332,14 @@ func (u *universe) show(t types.Type) string {
 	case *types.Signature:
 		return "func"
 	case *types.Interface:
-		return "iface"
+		if t.NumMethods() == 0 {
+			return "iface"
+		}
+		s := "(if"
+		for i := 0; i < t.NumMethods(); i++ { // sorted by go/types
+			s += "," + esc(t.Method(i).Name())
+		}
+		return s + ")"
 	}
 	return "?"
 }
